@@ -296,15 +296,6 @@ def gen_world(seed, classes=ALL_CLASSES, want_constraints=0.3, node_p=0.25, tag=
         args["max_num_paths"] = nroutes + 1
         args["stop_on_first_feasible"] = True
     world = {"class": cname, "graph": graph, "args": args}
-    # is the instance feasible by construction?  the generating routes are a solution that satisfies every
-    # constraint to the requested fraction whenever k admits them (used by C10's feasibility clause)
-    world["constructed_feasible"] = bool(
-        g.get("routes") and not g.get("hub_pairs_used") and
-        (dag or (wt == "int" and base in ("kFlowDecompCycles", "MinFlowDecompCycles", "kPathCoverCycles", "MinPathCoverCycles"))) and
-        (args.get("k") is None or args["k"] >= len(g["routes"])) and
-        (not base.startswith("Min") or len(g["routes"]) < len(graph["edges"])) and
-        not args.get("additional_starts") and not args.get("additional_ends") and
-        (flow_decomp is False or True))
     return world
 
 
@@ -539,6 +530,74 @@ def oracle_c10(world, out, pid="C10"):
             V("constraint_not_contained", {"constraint": c, "needed": need, "best_single_route": best, "coverage": cov})
             break
     return vs
+
+
+def witness_feasible(world):
+    """Are the generating routes (with their weights) a solution of this world's model that satisfies every
+    constraint to the requested fraction?  Evaluated on the world as it is (also after shrinking), with the same
+    reference functions the oracles use.  Conservative: any doubt -> False."""
+    g = world["graph"]
+    args = world["args"]
+    cname = world["class"]
+    base = _base(world)
+    routes, weights = g.get("routes"), g.get("weights")
+    if not routes or not weights or cname == "NumPathsOptimization":
+        return False
+    dag = base in models.DAG_CLASSES
+    k = args.get("k")
+    if base.startswith("k") and (k is None or k < len(routes)):
+        return False
+    if base.startswith("Min") and len(routes) >= len(g["edges"]):
+        return False
+    wt = args.get("weight_type", "float")
+    if wt == "int" and any(not isinstance(w, int) for w in weights):
+        return False
+    if not dag and not (wt == "int" and base in ("kFlowDecompCycles", "MinFlowDecompCycles", "kPathCoverCycles", "MinPathCoverCycles")):
+        return False       # repetition caps of the walk models are not modelled here
+    sup = args.get("solution_weights_superset")
+    if sup is not None:
+        pool = list(sup)
+        for w in weights:
+            if w in pool:
+                pool.remove(w)
+            else:
+                return False
+    E = ref.edge_set(g)
+    for r in routes:
+        if any((a, b) not in E for a, b in zip(r[:-1], r[1:])):
+            return False
+    if ref.check_routes(g, routes, dag, args.get("additional_starts"), args.get("additional_ends")):
+        return False
+    ign = args.get("elements_to_ignore") or []
+    node_mode = _node_mode(world)
+    if base in models.FLOW_DECOMP_CLASSES:
+        if node_mode:
+            expl = ref.explained_flow_nodes(routes, weights)
+            for x, f in g.get("node_weights", []):
+                if f is not None and x not in ign and abs(expl.get(x, 0) - f) > 1e-9:
+                    return False
+        else:
+            expl = ref.explained_flow_edges(routes, weights)
+            ig = {tuple(e) for e in ign}
+            for u, v, f in g["edges"]:
+                if (u, v) not in ig and f is not None and abs(expl.get((u, v), 0) - f) > 1e-9:
+                    return False
+    if base in models.COVER_CLASSES:
+        if node_mode:
+            seen = {x for r in routes for x in r}
+            if any(x not in seen and x not in ign for x in g["nodes"]):
+                return False
+        else:
+            cov = set()
+            for r in routes:
+                cov.update(zip(r[:-1], r[1:]))
+            ig = {tuple(e) for e in ign}
+            if any((u, v) not in cov and (u, v) not in ig for u, v, _ in g["edges"]):
+                return False
+    fake = {"solved": True, "raw_solution": {("paths" if dag else "walks"): routes, "weights": weights}}
+    if oracle_c10(world, fake):
+        return False
+    return True
 
 
 def shrink(spec):
